@@ -7,6 +7,7 @@ from .liecommon import *
 from .c16 import subs_syms
 from ..frontend import AnchorMissing
 from ..poly import Poly
+from ..decide import canon
 
 SCRIPT = "scripts/rdd2_sim.py"
 
@@ -160,6 +161,142 @@ def check_sign_conventions(w, rep):
                           fact={"gain": short(v, 80)})
 
 
+def check_restoring(w, rep):
+    """Sign of the position / velocity feedback at the level hover equilibrium (heading 0, zero error): the demanded
+    force must oppose the displacement.  F = unclamped PD term u of both cascades (recovered from the generated
+    frame, as in C15), composed with se23_error for the log-linear cascade; dF/dp and dF/dv must be negative
+    diagonal constants, and the height integrator must integrate (reference - position).  A necessary condition of
+    convergence (a positive entry is positive feedback), not the convergence itself."""
+    from .c15 import demanded_force, POSITION_LOOPS
+    from .c13 import clamp_parts
+    from .c16 import subs_syms
+    R = "C17.restoring"
+    p, v, pr, vr = w.sym("p", 3), w.sym("v", 3), w.sym("p_r", 3), w.sym("v_r", 3)
+    pa, va, pra, vra = (sym_atoms_of(x) for x in (p, v, pr, vr))
+    at_eq = {a: Poly.atom(b) for a, b in zip(pa + va, pra + vra)}
+    for modname, fn, key, zsrc in POSITION_LOOPS:
+        got = demanded_force(w, rep, modname, fn, key, "C17.wiring")
+        if got is None:
+            continue
+        f, I, O, parts, mod, W = got
+        if parts is None:
+            rep.incomplete(R, "%s: feedback term" % key, "cannot isolate the PD term of the demanded force", where=W)
+            continue
+        L, us, rests = parts
+        u = MatVal(3, 1, [[x] for x in us])
+        zi = O.get("z_i_2")
+        cp = clamp_parts(zi.s()) if zi is not None else None
+        zinc = MatVal(1, 1, [[cp[0] - I["z_i"].s()]]) if cp is not None and "z_i" in I else None
+        if zsrc == "p":
+            need = ("pt_w", "vt_w", "p_w", "v_w")
+            if not all(n in I for n in need):
+                rep.incomplete(R, "%s: signature" % key, "inputs %s" % f.in_names, where=W)
+                continue
+            m = dict(zip(sym_atoms_of(I["p_w"]) + sym_atoms_of(I["v_w"]) + sym_atoms_of(I["pt_w"]) + sym_atoms_of(I["vt_w"]), [Poly.atom(a) for a in pa + va + pra + vra]))
+        else:
+            emod = w.mod(modname)
+            if "derive_se23_error" not in emod:
+                raise AnchorMissing("%s.derive_se23_error" % modname)
+            ok, eqs = guarded(w, rep, "C17.wiring", "derive_se23_error()", lambda: w.callf(emod["derive_se23_error"]))
+            fe = eqs.get("se23_error") if ok and isinstance(eqs, dict) else None
+            if not isinstance(fe, cm.FunctionVal) or "zeta" not in I:
+                rep.incomplete(R, "%s: error function" % key, "se23_error / zeta not found", where=W)
+                continue
+            q1 = cm.to_mat([1, 0, 0, 0])
+            ok, z = guarded(w, rep, R, "se23_error at level attitude", lambda: closed(w, fe(p, v, q1, pr, vr, q1)))
+            if not ok:
+                continue
+            m = dict(zip(sym_atoms_of(I["zeta"]), z.flat()))
+        with with_maxdeg(30):
+            u = closed(w, subs_syms(u, m))
+            zinc = closed(w, subs_syms(zinc, m)) if zinc is not None else None
+            for name, atoms in (("position", pa), ("velocity", va)):
+                for i in range(3):
+                    for j in range(3):
+                        d = canon(subs_syms(MatVal(1, 1, [[canon(u.cells[i][0]).diff(atoms[j])]]), at_eq).s())
+                        c = d.const_value()
+                        inst = "%s: d F[%d] / d %s[%d] at the level hover equilibrium" % (key, i, name, j)
+                        if c is None:
+                            rep.incomplete(R, inst, "not a constant: %s" % short(d, 80), where=W)
+                        elif i == j:
+                            rep.check(R, inst + " < 0 (restoring)", c < 0, "the %s feedback gain is %s: a %s error produces a force in the direction of the error (positive feedback)" % (name, c, name), where=W, fact={"gain": str(c)})
+                        else:
+                            rep.check(R, inst + " = 0", c == 0, "cross-axis %s feedback %s at zero attitude error" % (name, c), where=W, nontrivial=False)
+            if zinc is not None:
+                dtA = I["dt"].s().single_atom()
+                d = canon(subs_syms(MatVal(1, 1, [[canon(zinc.s()).diff(pa[2]).diff(dtA)]]), at_eq).s())
+                c = d.const_value()
+                inst = "%s: height integrator integrates (reference - position): d^2 z_i_2 / d p[2] d dt < 0" % key
+                if c is None:
+                    rep.incomplete(R, inst, "not a constant: %s" % short(d, 80), where=W)
+                else:
+                    rep.check(R, inst, c < 0, "the height integrator accumulates the error with gain %s: it winds away from the reference" % c, where=W, fact={"gain": str(c)})
+
+
+def _frame_of(name):
+    """Frame letter a script attribute name declares by its suffix: vw / vel_w / v_world -> 'w', vb / v_b -> 'b'."""
+    import re
+    m = re.search(r"(?:^[a-z]{1,2}|_)(w|b)$", name)
+    if m:
+        return m.group(1)
+    if name.endswith(("_world",)):
+        return "w"
+    if name.endswith(("_body",)):
+        return "b"
+    return None
+
+
+def check_frames(w, rep, keys):
+    """rotate_vector_<a>_to_<b>: (1) the shipped functions are R(q)^T v (world to body) and R(q) v (body to world) for the
+    body-to-world attitude quaternion q; (2) at every call site in the script the argument's declared frame (name
+    suffix) is <a> and the assigned attribute's declared frame is <b>."""
+    import re
+    R = "C17.frames"
+    Q = w.G("SO3Quat")
+    q, v = w.sym("q", 4), w.sym("v", 3)
+    Rm = w.call(w.elem(Q, q), "to_Matrix")
+    for k, want, text in (("rotate_vector_w_to_b", cm.matmul(cm.transpose(Rm), v), "R(q)^T v"), ("rotate_vector_b_to_w", cm.matmul(Rm, v), "R(q) v")):
+        if k not in keys:
+            rep.incomplete(R, "%s is shipped" % k, "key not produced by the merged equation sets", where=(SCRIPT, 1))
+            continue
+        f, src = keys[k]
+        verdict(rep, R, "%s(q, v) = %s" % (k, text), f(q, v), want, (), w.where("cyecca.models.rdd2", "derive_common"), "%s does not rotate with %s" % (k, text))
+    sf = w.fe.get(SCRIPT)
+    for node in ast.walk(sf.tree):
+        if not (isinstance(node, ast.Call) and isinstance(node.func, ast.Subscript) and ast.unparse(node.func.value) == "self.eqs" and isinstance(node.func.slice, ast.Constant)):
+            continue
+        m = re.fullmatch(r"rotate_vector_(w|b)_to_(w|b)", str(node.func.slice.value))
+        if not m or len(node.args) != 2:
+            continue
+        src_f, dst_f = m.groups()
+        arg = node.args[1]
+        inst = "rdd2_sim %s: self.eqs[%r]" % (_enclosing(node), node.func.slice.value)
+        an = arg.attr if isinstance(arg, ast.Attribute) else arg.id if isinstance(arg, ast.Name) else None
+        af = _frame_of(an) if an else None
+        if af is None:
+            rep.na(R, inst + " argument frame", "argument %s declares no frame" % ast.unparse(arg))
+        else:
+            rep.check(R, inst + " is applied to a vector declared in frame %r" % src_f, af == src_f,
+                      "`%s` is declared (by its name) in frame %r but is rotated with %s" % (ast.unparse(arg), af, node.func.slice.value), where=(SCRIPT, node.lineno))
+        # assigned name: climb through np.array(...).reshape(-1) wrappers
+        n = node
+        while getattr(n, "_parent", None) is not None and not isinstance(n._parent, ast.stmt):
+            n = n._parent
+        st = getattr(n, "_parent", None)
+        tn = None
+        if isinstance(st, ast.Assign) and len(st.targets) == 1:
+            t = st.targets[0]
+            tn = t.attr if isinstance(t, ast.Attribute) else t.id if isinstance(t, ast.Name) else None
+        tf = _frame_of(tn) if tn else None
+        if tf is None:
+            rep.na(R, inst + " result frame", "the result is not assigned to a name that declares a frame")
+        else:
+            rep.check(R, inst + " result is stored in a name declared in frame %r" % dst_f, tf == dst_f,
+                      "the result of %s is stored in `%s`, declared (by its name) in frame %r: the vector is rotated with the inverse of the intended rotation" % (node.func.slice.value, ast.unparse(st.targets[0]), tf),
+                      where=(SCRIPT, node.lineno))
+    rep.floor(R, 6)
+
+
 def positive_const(v):
     """True if v is a positive constant (rationals and sqrt(1/2)-type atoms only), False if non-positive, None otherwise."""
     if not v.t:
@@ -203,10 +340,15 @@ def check_gains(w, rep):
 def run(w, rep, tier):
     rep.rule("C17.wiring", "every self.eqs[key](...) call of scripts/rdd2_sim.py names a key produced by a merged derive_* with matching argument and result counts; no key merged twice")
     rep.rule("C17.signs", "plant force->(thrust, moment) map (default geometry) times the mixer is diagonal with positive entries")
+    rep.rule("C17.restoring", "at the level hover equilibrium dF/dp and dF/dv of both cascades' demanded force are negative diagonal constants and the height integrator integrates reference minus position (necessary for convergence)")
+    rep.rule("C17.frames", "rotate_vector_w_to_b / _b_to_w are R(q)^T v / R(q) v, and every call site in the script applies them to a vector whose name declares the source frame and stores the result under a name that declares the target frame")
     rep.rule("C17.gains", "feedback gains in the script are non-negative")
     keys = script_merges(w, rep)
     check_script_calls(w, rep, keys)
     check_sign_conventions(w, rep)
+    check_restoring(w, rep)
+    check_frames(w, rep, keys)
     check_gains(w, rep)
     rep.floor("C17.signs", 16)
+    rep.floor("C17.restoring", 38)
     rep.undecided_clause("stabilisation of the closed loop (convergence of trajectories): NOT decided by static analysis; the script needs ROS and cannot even be imported here")
